@@ -406,6 +406,15 @@ HReturn ==
             ELSE emit' = <<Rv(ErrRec(Op.err))>> /\ skip' = TRUE /\ UNCHANGED hq
     /\ UNCHANGED <<cfg, phase, ssl, mwi, cparams, inq, eof, faulted, stmts, portals>>
 
+\* A statement function that panics while it runs under Execute: the library
+\* recovers (cache.go Execute) and the message fails like any other - one
+\* ErrorResponse, then discarding.  (A panic under a simple Query is not
+\* recovered by the library; it is the handler's defect and not modelled.)
+HPanic ==
+    /\ Running /\ Op.op = "panic" /\ h.mode = "ext"
+    /\ h' = NoH /\ emit' = <<Rv(ErrAny)>> /\ skip' = TRUE
+    /\ UNCHANGED <<cfg, phase, ssl, mwi, cparams, inq, eof, faulted, stmts, portals, hq>>
+
 ---------------------------------------------------------------------------
 (* Extended query protocol (handleParse/Bind/Describe/Execute, cache.go).  *)
 
@@ -620,7 +629,7 @@ Preamble == DoStartup \/ DoSSLRequest \/ DoStuffedDrop \/ TLSAbort \/ DoCancel \
             \/ DoPassword \/ DoNotPassword
             \/ WriteServerParams \/ Middleware \/ FirstReady
 
-Handler == HGate \/ HRow \/ HComplete \/ HEmpty \/ HCopyIn \/ HCopyReadNoop \/ HCopyRead \/ HCopyReadHuge \/ HCopyReadEOF \/ HReturn
+Handler == HGate \/ HRow \/ HComplete \/ HEmpty \/ HCopyIn \/ HCopyReadNoop \/ HCopyRead \/ HCopyReadHuge \/ HCopyReadEOF \/ HReturn \/ HPanic
 
 Command == DoDiscard \/ DoQuery \/ StartNext \/ DoParse \/ DoBind \/ DoDescribe \/ DoExecute
            \/ DoClose \/ DoFlush \/ DoSync \/ DoStrayCopy \/ DoTerminate
